@@ -9,6 +9,21 @@ from gen import c10 as G
 
 
 def run(rep, tier, seed, replay):
+    # constants and repair flags are measured on the compiled code first (gen/params_c10.py reads the result)
+    impl = ltv.build_harness("c10", ["c10.cc", "common/session.cc"])
+    import os, subprocess
+    pdir = os.path.join(ltv.BUILD, "probe")
+    os.makedirs(pdir, exist_ok=True)
+    env = dict(os.environ)
+    env.setdefault("ASAN_OPTIONS", "detect_leaks=0")
+    try:
+        pr = subprocess.run([impl, "--probe"], stdout=subprocess.PIPE, stderr=subprocess.PIPE, timeout=180, env=env)
+        probe = json.loads(pr.stdout.decode().strip().split("\n")[-1])
+        with open(os.path.join(pdir, "c10.json"), "w") as f:
+            json.dump(probe, f)
+        rep.cov.update(probed_constants=probe)
+    except Exception as ex:
+        rep.violation("the probe of the compiled code failed (%s)" % str(ex)[:200], theorem="harness c10 --probe", found_input=False)
     coq = ltv.coq_build("C10")
     rep.cov.update(obligations=coq["obligations"], discharged=coq["discharged"], checker_cmd=coq["checker_cmd"],
                    theorems=coq["theorems"], axioms_per_theorem=coq["axioms"],
@@ -27,7 +42,6 @@ def run(rep, tier, seed, replay):
                        "compared too, which makes the 60/30-minute pruning visible (histories with two download rounds)",
                        "python property oracle gen/c10.py:oracle (bits vs OpenSSL verdict over the files; genuineness of a case)"]))
     model = ltv.build_model("C10")
-    impl = ltv.build_harness("c10", ["c10.cc", "common/session.cc"])
     if replay:
         cases = [json.load(open(replay))["case"]]
         stats = {"replay": 1}
@@ -46,7 +60,7 @@ def run(rep, tier, seed, replay):
         if full.startswith("SKIPPED-AFTER-HANGS"):
             continue
         viol = G.oracle(case, full)
-        if case.startswith("T "):
+        if case.startswith("T ") or case.startswith("Tq "):
             outcomes["T"] += 1
             if " unc=" in o and " unc=none" not in o:
                 nontrivial.add(hashlib.sha1(case.encode()).digest())
